@@ -65,12 +65,16 @@ type SpecFunc struct {
 	Result string
 	Body   Expr // nil: uninterpreted
 	Macro  bool // state-dependent definition, expanded at use
+	Declared bool // fdef: a declared function symbol plus a defining axiom (usable in quantifier patterns)
 	File   string
 	Line   int
 }
 
 type Lemma struct {
 	Pkg    string
+	Params []QVar // free variables of the lemma (reported in counterexamples)
+	Using  []string // axioms / lemmas assumed in the proof (empty: all axioms)
+	Cover  bool     // vacuity guard: must NOT be provable
 	Name   string
 	Expr   Expr
 	Src    string
@@ -89,6 +93,13 @@ type GlobalInv struct {
 	Src  string
 }
 
+// PoolInv: invariant of the values held by a package-level sync.Pool (variable x).
+type PoolInv struct {
+	Pkg, Var string
+	Inv      Expr
+	Src      string
+}
+
 type GhostField struct {
 	Struct string // pkgpath.Type
 	Name   string
@@ -101,6 +112,7 @@ type Specs struct {
 	Lemmas     []*Lemma
 	Ghost      map[string]*GhostField // key: pkgpath.Type.#name
 	GlobalInvs []*GlobalInv
+	Pools      []*PoolInv
 	GhostVars  map[string]string // $name -> sort
 	Files      []string
 	Guarded    []string
@@ -327,7 +339,7 @@ func (sp *Specs) LoadSpecFile(path, pkgPath string) error {
 				return fail("duplicate spec function %s", sf.Name)
 			}
 			sp.Spec[sf.Name] = sf
-		case "axiom", "lemma":
+		case "axiom", "lemma", "cover":
 			name := label
 			if name == "" {
 				i := strings.Index(rest, ":")
@@ -336,11 +348,43 @@ func (sp *Specs) LoadSpecFile(path, pkgPath string) error {
 				}
 				name, rest = strings.TrimSpace(rest[:i]), strings.TrimSpace(rest[i+1:])
 			}
+			// optional "using a b c" list and parameter list: name(a T, b U) using ax1 ax2: expr
+			var using []string
+			if i := strings.Index(name+" ", " using "); i >= 0 {
+				using = strings.Fields((name + " ")[i+7:])
+				name = strings.TrimSpace(name[:i])
+				if len(using) == 0 {
+					using = []string{"-"} // explicitly no axioms
+				}
+			}
+			var lparams []QVar
+			if i := strings.Index(name, "("); i >= 0 && strings.HasSuffix(name, ")") {
+				for _, pp := range splitTop(name[i+1 : len(name)-1]) {
+					parts := strings.SplitN(strings.TrimSpace(pp), " ", 2)
+					if len(parts) != 2 {
+						return fail("bad lemma parameter %q", pp)
+					}
+					lparams = append(lparams, QVar{parts[0], strings.TrimSpace(parts[1])})
+				}
+				name = strings.TrimSpace(name[:i])
+			}
 			e, err := ParseExpr(rest)
 			if err != nil {
 				return fail("%v", err)
 			}
-			sp.Lemmas = append(sp.Lemmas, &Lemma{Pkg: pkgPath, Name: name, Expr: e, Src: rest, Axiom: word == "axiom", File: path, Line: ln, Props: curProps})
+			sp.Lemmas = append(sp.Lemmas, &Lemma{Pkg: pkgPath, Name: name, Params: lparams, Using: using, Cover: word == "cover", Expr: e, Src: rest, Axiom: word == "axiom", File: path, Line: ln, Props: curProps})
+		case "pool":
+			// pool <var>: <invariant over x>
+			i := strings.Index(rest, ":")
+			if i < 0 {
+				return fail("pool <var>: <invariant over x>")
+			}
+			src := strings.TrimSpace(rest[i+1:])
+			e, err := ParseExpr(src)
+			if err != nil {
+				return fail("%v", err)
+			}
+			sp.Pools = append(sp.Pools, &PoolInv{Pkg: pkgPath, Var: strings.TrimSpace(rest[:i]), Inv: e, Src: src})
 		case "globalinv":
 			// globalinv[name] by init#1: expr
 			if !strings.HasPrefix(rest, "by ") {
@@ -455,14 +499,14 @@ func splitTop(s string) []string {
 	return out
 }
 
-var reSpecHdr = regexp.MustCompile(`^(func|def|macro)\s+(\w+)\s*\(([^)]*)\)\s*([^=]+?)\s*(=\s*(.*))?$`)
+var reSpecHdr = regexp.MustCompile(`^(func|def|fdef|macro)\s+(\w+)\s*\(([^)]*)\)\s*([^=]+?)\s*(=\s*(.*))?$`)
 
 func parseSpecFunc(s string) (*SpecFunc, error) {
 	m := reSpecHdr.FindStringSubmatch(s)
 	if m == nil {
 		return nil, fmt.Errorf("bad spec function %q", s)
 	}
-	sf := &SpecFunc{Name: m[2], Result: strings.TrimSpace(m[4]), Macro: m[1] == "macro"}
+	sf := &SpecFunc{Name: m[2], Result: strings.TrimSpace(m[4]), Macro: m[1] == "macro", Declared: m[1] == "fdef"}
 	for _, p := range splitTop(m[3]) {
 		parts := strings.SplitN(strings.TrimSpace(p), " ", 2)
 		if len(parts) != 2 {
